@@ -74,6 +74,13 @@ func main() {
 			usage()
 		}
 		dump(os.Args[2:])
+	case "census":
+		w, err := LoadWorld("", nil)
+		if err != nil {
+			fmt.Println(err)
+			os.Exit(2)
+		}
+		dumpCensus(w)
 	case "selftest":
 		os.Exit(selftestMain(os.Args[2:]))
 	default:
